@@ -1,5 +1,7 @@
 import Crusta.Proofs.Oracle
 import Crusta.Proofs.DynHistory
+import Crusta.Proofs.DynTotal
+import Crusta.Proofs.DynAttHistory
 
 /-!
 # C09 — redundant or invalid updates never corrupt a dynamic solver (property theorems)
@@ -8,6 +10,12 @@ Model and tie as for C08.  `update_call_contract` is proved for the buffered sol
 semantics (the update path does not depend on the semantics); the statement about later answers
 is `C08.dynamic_answers_for_current_framework` (complete, stable and preferred solvers), whose framework is
 `runOps ops`: a history in which rejected or redundant updates have no effect.
+
+`solver_stays_usable` / `preferred_solver_stays_usable` add that in every reachable state a supported
+query about an existing argument **does not panic** (`Proofs/DynTotal.lean`): no `unwrap()` on a
+missing variable, selector, label or cached id, no index out of bounds; for the preferred solver the
+search loop terminates (the model's fuel, which the Rust loop does not have, is never exhausted when
+it is at least `prFuel`, a bound on the number of iterations).
 -/
 
 namespace Crusta.C09
@@ -42,6 +50,51 @@ theorem reachable_states_keep_contract {sem : DSem} {fuel : Nat} {ops : List Sto
   · rw [hok] at herr; cases herr
   · exact hd
 
+/-- **the solver stays usable** (complete and stable solvers).  In every state reachable from a fresh
+solver by update calls — accepted, rejected or redundant — and by queries, a query the solver offers
+(the complete solver has no skeptical query: `unimplemented!()`), about an argument of the current
+framework, run on replies a correct SAT solver may give, never panics. -/
+theorem solver_stays_usable {sem : DSem} (hsem : sem ≠ .PR) {fuel : Nat} {ops : List StoreOp}
+    {d : DState} {w : World} (hreach : Reach sem fuel ops d w) (q : DQuery) (hq : sem = .CO → q = .cred)
+    {l id : Nat} (hl : d.pending.Live id l) {fuel' : Nat} {rs : List Reply}
+    (hs : RunSound (query fuel' d q l) rs w) :
+    ∀ msg w', interp (query fuel' d q l) rs w ≠ (.crashed msg, w') := by
+  obtain ⟨hq', henc, _⟩ := reach_inv hreach
+  exact query_never_panics hsem hq' henc q hq hl hs
+
+/-- **the preferred solver stays usable.**  The same for the skeptical query of the preferred solver
+(the only one it offers); the one hypothesis is about the model, not the code: the fuel given to the
+model's search loop covers the bound `prFuel` on its number of iterations
+(`3 * 2 ^ n + 2`, `n` the number of argument ids issued so far), so that the node "fuel exhausted" —
+which does not exist in the Rust loop — is not reached. -/
+theorem preferred_solver_stays_usable {fuel : Nat} {ops : List StoreOp}
+    {d : DState} {w : World} (hreach : Reach .PR fuel ops d w)
+    {l id : Nat} (hl : d.pending.Live id l) {fuel' : Nat} (hfuel : prFuel d.pending ≤ fuel') {rs : List Reply}
+    (hs : RunSound (query fuel' d .skep l) rs w) :
+    ∀ msg w', interp (query fuel' d .skep l) rs w ≠ (.crashed msg, w') := by
+  obtain ⟨hq', henc, _⟩ := reach_inv hreach
+  exact pr_query_never_panics hq' henc hl hfuel hs
+
+/-- all three solvers at once, with the outcome spelled out: the run ends with the right answer in a
+state that satisfies the invariant again (so the next call finds a usable solver), or the SAT solver
+gave up (`unknown`), or the recorded reply list is too short — never with a panic -/
+theorem usable_after_any_history {sem : DSem} {fuel : Nat} {ops : List StoreOp}
+    {d : DState} {w : World} (hreach : Reach sem fuel ops d w) (q : DQuery) (hq : Supported sem q)
+    {l id : Nat} (hl : d.pending.Live id l) {fuel' : Nat} (hfuel : FuelOK sem d.pending fuel') {rs : List Reply}
+    (hs : RunSound (query fuel' d q l) rs w) :
+    (∃ d' a w', interp (query fuel' d q l) rs w = (.done (d', a), w') ∧ QInv sem d' w' ∧
+        d'.pending = d.pending ∧ AnswerOK sem d.pending q l a) ∨
+    (∃ w', interp (query fuel' d q l) rs w = (.abort, w')) ∨
+    (∃ w', interp (query fuel' d q l) rs w = (.starved, w')) := by
+  obtain ⟨hq', henc, _⟩ := reach_inv hreach
+  exact supported_query_outcome hq' henc q hq hfuel hl hs
+
+/-- non-vacuity of the fuel hypothesis: after `A1; A2; +1>2` the bound is 14 iterations -/
+example : ∃ d w, Reach .PR 100 [.newArg 1, .newArg 2, .newAtt 1 2] d w ∧ d.pending.Live 1 2 ∧
+    prFuel d.pending = 14 ∧ FuelOK .PR d.pending 100 :=
+  ⟨_, _, Reach.update (.newAtt 1 2) (Reach.update (.newArg 2) (Reach.update (.newArg 1) Reach.init)),
+    by unfold Store.Live; decide, by decide, fun _ => by decide⟩
+
 /-- which updates the store rejects: unknown argument to remove, unknown endpoint of an attack,
 unknown attack to remove (from the store theorems of C12) -/
 theorem store_rejects_exactly {s : Store} (hinv : s.Inv) :
@@ -53,5 +106,13 @@ theorem store_rejects_exactly {s : Store} (hinv : s.Inv) :
    fun la lb h => (Store.newAttack_spec hinv la lb).2 h,
    fun la lb h => (Store.removeAttack_spec hinv la lb).2 h,
    fun la lb a b ha hb hn => ((Store.removeAttack_spec hinv la lb).1 a b ha hb).2 hn⟩
+
+/-- the update contract for the two assumptions-on-attacks solvers -/
+theorem attack_assumption_update_contract {sem : DSem} {d : DynAtt.ADState} {w : World}
+    (h : DynAtt.AQInv sem d w) (op : StoreOp) :
+    DynAtt.AQInv sem (d.update op).1 w ∧
+    ((d.update op).2 = .ok ∧ d.pending.step op = .ok (d.update op).1.pending ∨
+     (d.update op).2 = .err ∧ d.pending.step op = .err d.pending ∧ (d.update op).1 = d) ∧
+    ((d.update op).1.pending = d.pending → (d.update op).1 = d) := DynAtt.update_preserves h op
 
 end Crusta.C09
